@@ -168,7 +168,16 @@ def run_property(pc, tier, seed, known_matchers):
     """pc: object with .id, .streams(tier, seed), .lean_files, .theorem_prefixes"""
     t0 = time.time()
     res = Result(pc.id)
-    for st in pc.streams(tier, seed):
+    # thorough: the same streams for three seeds derived from VERIF_SEED (wider generators, longer histories per seed)
+    seeds = [seed] if tier != "thorough" else [seed, seed * 1000003 + 17, seed * 1000003 + 29]
+    all_streams = []
+    for k, sd in enumerate(seeds):
+        for st in pc.streams(tier, sd):
+            if k > 0:
+                st.name = "%s@seed%d" % (st.name, sd)
+            all_streams.append(st)
+    res.seeds = seeds
+    for st in all_streams:
         try:
             steps, dt = run_stream(st)
         except Exception as e:  # a driver died or lost sync: that is itself a broken correspondence
